@@ -241,6 +241,25 @@ pub fn run(ctx: &Ctx) {
     let n = ctx.tier.pick(300, 20_000);
     ctx.explore("npo-circuits", RULE_NPO, n, crate::checks::c08::prove_case_strategy, |c| npo_oracle(c, false));
     ctx.explore("npo-circuits-full-table", RULE_NPO, n, crate::checks::c08::prove_case_strategy, |c| npo_oracle(c, true));
+    // Generated programs rich in extension (de)composition, PROVEN with the recompose tables at
+    // 1, 2 or 4 operations per row: what the AIRs put on the bus (as opposed to the per-operation
+    // preprocessed data decoded above) balances iff the proof is not rejected with a lookup error.
+    let n = ctx.tier.pick(1500, 80_000);
+    ctx.explore("programs-proven", RULE_PROVEN, n, || {
+        crate::checks::c10::strategy(GenOpts {
+            violating: false,
+            free_connect: false,
+            allow_div: false,
+            max_len: 12,
+            free_horner_weight: 0,
+            fields: vec![1, 3, 4, 6],
+            ..GenOpts::default()
+        })
+        .prop_map(|mut c| {
+            c.prog.recompose_npo = true;
+            c
+        })
+    }, proven_oracle);
     // direct permutation programs (sponge / Merkle rows, exposed index sums, exactly full tables)
     ctx.explore("perm-programs", crate::checks::pp::RULE_PROVE, ctx.tier.pick(400, 20_000),
         crate::checks::pp::strategy, |c| crate::checks::pp::oracle_bus(c, "C09/perm-programs"));
@@ -252,6 +271,28 @@ leaves, hiding on/off, caps, mixed heights; optionally with the leaf widths stee
 exactly full) built by verify_batch_circuit*, executed, proven with the Poseidon2 and recompose tables registered and \
 verified natively. Oracle: the WitnessChecks bus of the honest traces balances, i.e. the proof is not rejected with a \
 lookup error (other failures are C10's subject and pass here). Non-trivial = as for C10's mmcs-circuits";
+
+pub const RULE_PROVEN: &str = "satisfied generated programs of the extension-field configurations with the recompose \
+tables registered (1, 2 or 4 recompose operations per table row, ALU/public lanes 1-4, Horner pack size 2-6), executed, \
+proven and verified natively. Oracle: the proof is not rejected with a lookup error, i.e. the WitnessChecks bus as the \
+AIRs evaluate it balances (other failures are C10's subject and pass here). Non-trivial as for C10's sat-programs";
+
+fn proven_oracle(c: &C10Case) -> Report {
+    let mut r = crate::checks::c10::oracle(c);
+    if let crate::fw::Verdict::Fail { sig, msg } = &r.verdict {
+        let lookup = msg.contains("ookup") || msg.contains("multiplicity") || msg.contains("umulative");
+        if lookup {
+            r.verdict = crate::fw::Verdict::Fail {
+                sig: sig.replacen("C10/", "C09/programs-proven/bus-unbalanced:", 1),
+                msg: msg.clone(),
+            };
+        } else {
+            r.verdict = crate::fw::Verdict::Pass;
+            r.classes.push("outcome:failed-for-another-reason(C10's subject)".into());
+        }
+    }
+    r
+}
 
 fn npo_oracle(c: &crate::checks::c08::Case, full: bool) -> Report {
     let mut r = if full {
